@@ -89,6 +89,7 @@ R = {
  ("roles/src/validator/messages/genesis.rs","build"): {0:"build() of a local Genesis whose protocol version was validated at construction"},
  ("roles/src/validator/messages/schedule.rs","Schedule::new"): {0:"loop index over the validator list"},
  ("roles/src/validator/messages/schedule.rs","view_leader"): {157:"leaders is non-empty (Schedule::new rejects a schedule without leaders, C07.3); index is % leaders.len()", 158:"index drawn from self.leaders, built from valid indices in Schedule::new", 165:"index drawn from self.leaders", 166:"partial sums of leader weights <= total weight (checked_add in Schedule::new)", 171:"eligibility < leader_weight = sum of leader weights, so the loop returns"},
+ ("roles/src/validator/messages/schedule.rs","leader_weighted_eligibility"): {0:"BigUint remainder by BigUint::from(weight argument); the argument is self.leader_weight (C11.2 pins it) which is >= 1 because Schedule::new requires at least one leader and every weight > 0 (C07.3)"},
  ("roles/src/validator/messages/schedule.rs","max_faulty_weight"): {0:"total_weight >= 1 (Schedule::new rejects zero weights and empty schedules, C07.3)"},
  ("roles/src/validator/messages/schedule.rs","quorum_threshold"): {0:"f = (n-1)/5 <= n (C07 lemma)"},
  ("roles/src/validator/messages/schedule.rs","subquorum_threshold"): {0:"3f <= 3(n-1)/5 < n <= u64::MAX (C07 lemma)"},
